@@ -42,7 +42,9 @@ def _int_lexer_justified(prog, f):
     function is behind a successful `is_ascii_digit` test of the current
     character.  Returns (ok, what failed)."""
     convs = []
-    for c in f.calls():
+    import inline
+    fv = inline.view(prog, f)      # the conversion may sit in a private helper
+    for c in fv.calls():
         full = (c.res_full or "") + " " + (c.res or "")
         if "from_str_radix" in full or "parse::<" in full or "FromStr" in (c.declared or ""):
             convs.append(full.strip())
@@ -200,8 +202,32 @@ def rule_R02_2(ctx):
                    "or a zero divisor")
     n_checked = 0
     gen_sites = []
+    import prov as _prov
+    pv = ctx.memo("prov_stop", lambda: _prov.Prov(prog, foreign="stop"))
+    exempt_notes = []
+
+    def literal_negation(f, operand):
+        """Exception 1, semantic form: the negated value is, on every path,
+        the payload of an integer-literal token, i.e. the result of the
+        lexer's `str::parse::<i64>` of an unsigned digit string (so it is
+        non-negative and `-n` cannot overflow)."""
+        org = pv.origins(f, operand, ())
+        if not org:
+            return False
+        for x in org:
+            if x[0] != "call" or not x[3].endswith("str>::parse"):
+                return False
+            g = prog.fns.get(x[1])
+            if g is None or not g.root_fn().module.startswith("lexer"):
+                return False
+        return True
     for f in prog.full_fns():
         sites = []
+        exempt_locs = set()
+        for bb, i, pl, rv, sp in f.assigns():
+            if rv[0] == "un" and rv[1] == "Neg" and rv[3] in I64 and literal_negation(f, rv[2]):
+                exempt_locs.add(mir.span_loc(sp))
+                exempt_notes.append("%s at %s" % (f.path, mir.span_loc(sp)))
         for bb in range(len(f.blocks)):
             if f.is_cleanup(bb):
                 continue
@@ -210,12 +236,14 @@ def rule_R02_2(ctx):
                 kind = t["kind"]
                 if kind.startswith("Overflow") or kind in (
                         "OverflowNeg", "DivisionByZero", "RemainderByZero"):
-                    if any(x in I64 for x in t["optys"]):
+                    if any(x in I64 for x in t["optys"]) and not (
+                            kind == "OverflowNeg" and mir.span_loc(t["span"]) in exempt_locs):
                         sites.append(("assert " + kind, mir.span_loc(t["span"])))
         for bb, i, pl, rv, sp in f.assigns():
             if rv[0] == "bin" and rv[1] in ARITH_BINOPS and rv[4] in I64:
                 sites.append(("mir " + rv[1], mir.span_loc(sp)))
-            if rv[0] == "un" and rv[1] == "Neg" and rv[3] in I64:
+            if rv[0] == "un" and rv[1] == "Neg" and rv[3] in I64 \
+                    and mir.span_loc(sp) not in exempt_locs:
                 sites.append(("mir Neg", mir.span_loc(sp)))
         for c in f.calls():
             d = c.declared or ""
@@ -244,12 +272,10 @@ def rule_R02_2(ctx):
     # generated module: exactly the negated literal
     gen_fns = sorted(set(p for p, _ in gen_sites))
     r.inst("generated parser: i64 arithmetic in %s" % gen_fns)
-    if len(gen_fns) <= GENERATED_I64_ALLOWED and all(
-            "Neg" in s[0] for _, s in gen_sites):
+    for n_ in exempt_notes:
+        r.notes.append("exception 1: negation of an integer-literal token's payload (%s)" % n_)
+    if not gen_fns:
         r.ok()
-        if gen_fns:
-            r.notes.append("exception 1: `-n` of production \"-\" IntLiteral "
-                           "(%s)" % gen_fns[0])
     else:
         r.fail("parser | i64 arithmetic sites=%d" % len(gen_fns),
                "the generated parser module contains i64 arithmetic other "
